@@ -1271,6 +1271,11 @@ class Engine:
                                 attrs.add(ast.unparse(b))
             if isinstance(n, (ast.Yield, ast.YieldFrom)):
                 names.add('_y*')
+            if isinstance(n, ast.Call) and isinstance(n.func, ast.Name) and n.func.id == 'print':
+                for kw in n.keywords:          # print(..., file=f) writes to f
+                    if kw.arg == 'file' and isinstance(kw.value, ast.Name):
+                        names.add(kw.value.id)
+                        mutated.add(kw.value.id)
             if isinstance(n, ast.Call) and isinstance(n.func, ast.Attribute) and \
                     n.func.attr in ('append', 'pop', 'insert', 'remove', 'sort', 'extend', 'add', 'update', 'reverse', 'write'):
                 b = n.func.value
@@ -1430,11 +1435,14 @@ class Engine:
             names.discard('_y*')
             names |= {k for k in env if k.startswith('_y') and (k[2:].isdigit() or k in ('_ys', '_ytotal'))}
         havoced = set(names)
+        self.frame_declared = set()      # (id(object), field) pairs the loop may change: everything else is checked to stay as it is
+        self.frame_havoced = {id(env[n]) for n in names if n in env}      # values havoced IN PLACE below (also seen through their aliases)
         for x in spec.get('modifies_objects', []):       # objects mutated through callee contracts
             o = self.spec_eval(x, env)
             self.havoc_object(o, spec.get('modifies_fields', {}).get(x))
             for f in (spec.get('modifies_fields', {}).get(x) or o.fields):
                 havoced.add('{}.{}'.format(x, f))
+                self.frame_declared.add((id(o), f))
         for nme in sorted(names & getattr(self, 'last_mutated', set())):
             if isinstance(env.get(nme), VRow):
                 # a name bound to a row of a table before the loop and mutated inside it: the table changes
@@ -1484,7 +1492,70 @@ class Engine:
             if isinstance(o, VObj) and node.attr in o.fields:
                 o.fields[node.attr] = self.havoc_value(a, o.fields[node.attr])
                 havoced.add(a)
+                self.frame_declared.add((id(o), node.attr))
         return havoced
+
+    # ---- frame of a loop: what the havoc at the loop head did not touch must come out of the body unchanged --------------------
+    def frame_snapshot(self, env, hv):
+        """(declared fields, {name: (current value, snapshot of it)}) for every name the loop head did not havoc"""
+        return (set(self.frame_declared), {k: (v, self.snapshot(v)) for k, v in env.items() if k not in hv and not k.startswith('__')},
+                set(self.frame_havoced))
+
+    def frame_check(self, snap, env, k, line):
+        """after one execution of the body: every value that existed at the loop head and was not havoced there (names assigned or
+        mutated in the body, declared modifies_objects / attribute stores) is still what it was.  A body that changes such a value -
+        through a callee contract's `modifies`, an inlined helper, an alias - while the loop contract does not say so would let the
+        code AFTER the loop see the pre-loop value: unsound.  Reported as an auxiliary failure of the function."""
+        declared, vals, inplace = snap
+        seen = set()
+
+        def same(cur, old, path):
+            if cur is old or id(cur) in inplace:
+                return None
+            key = (id(cur), id(old))
+            if key in seen:
+                return None
+            seen.add(key)
+            if is_z3(cur) or is_z3(old):
+                return None if (is_z3(cur) and is_z3(old) and cur.eq(old)) else path
+            if isinstance(cur, VObj) and isinstance(old, VObj):
+                for f, x in cur.fields.items():
+                    if (id(cur), f) in declared or f not in old.fields:
+                        continue
+                    r = same(x, old.fields[f], path + '.' + f)
+                    if r:
+                        return r
+                return None
+            if type(cur) is not type(old):
+                return path
+            if isinstance(cur, (list, tuple)):
+                if len(cur) != len(old):
+                    return path
+                for j, (x, y) in enumerate(zip(cur, old)):
+                    r = same(x, y, '{}[{}]'.format(path, j))
+                    if r:
+                        return r
+                return None
+            if hasattr(cur, '__dict__') and type(cur).__module__ == __name__:
+                for f, x in vars(cur).items():
+                    if f in ('env', 'lam', 'parent') or f not in vars(old):
+                        continue            # bookkeeping flags the snapshot does not copy
+                    r = same(x, vars(old).get(f), path)
+                    if r:
+                        return r
+                return None
+            try:
+                return None if cur == old else path
+            except Exception:       # noqa
+                return None
+        for name, (obj, old) in vals.items():
+            if name not in env or env[name] is not obj:
+                continue            # re-bound in the body: a name the syntactic scan havocs (or a fresh binding): not a mutation of the old value
+            bad = same(obj, old, name)
+            if bad:
+                self.oblige('frame', 'loop #{}: the body changes `{}` but the loop contract does not declare it (modifies_objects / an assigned name): '
+                            'the state after the loop would keep the old value'.format(k, bad), False, line, decisive=False)
+                return
 
     def havoc_object(self, o, fields=None):
         for f in list(o.fields):
@@ -1543,12 +1614,14 @@ class Engine:
             self.assume(toz(guard))
             dec0 = self.spec_eval(spec['decreases'], env) if 'decreases' in spec else None
             self.frames[-1]['ycount'] = 0
+            fsnap = self.frame_snapshot(env, hv)
             try:
                 self.exec_block(s.body, env)
             except BreakSig:
                 return
             except ContinueSig:
                 pass
+            self.frame_check(fsnap, env, k, s.lineno)
             if spec.get('iter_ensures'):
                 e_it = dict(env)
                 e_it['_yielded_now'] = z3.IntVal(self.frames[-1].get('ycount', 0))
@@ -1879,12 +1952,14 @@ class Engine:
             if not self.feasible(z3.BoolVal(True)):
                 raise PathEnd()          # the loop cannot make an iteration on this path (e.g. an empty range): nothing to check
             self.frames[-1]['ycount'] = 0
+            fsnap = self.frame_snapshot(env, hv)
             try:
                 self.exec_block(s.body, env)
             except BreakSig:
                 return                  # for/else: else skipped
             except ContinueSig:
                 pass
+            self.frame_check(fsnap, env, k, s.lineno)
             if spec.get('iter_ensures'):
                 # decisive statements about ONE iteration (e.g. "it yields iff ..."): _yielded_now = number of values yielded by
                 # this iteration on this path (yields inside an inner loop are not counted: use the innermost loop)
